@@ -217,12 +217,21 @@ def suite_reuse(rng, tier):
     alpha = [("send", l, how) for l in (LBL_A6, LBL_B6, LBL_A3, LBL_BC, LBL_RU) for how in ("ok", "small", "frag")] + \
             [("send", l, "ok") for l in TRICKY_LABELS] + [("send", LBL_A6_LAST, "frag"), ("send", LBL_3_ABC, "small")] + \
             [("send", LBL_A6, "ptype"), ("send", LBL_Z6, "ok"), ("send", LBL_B3, "ok"), ("send", LBL_A6, "ext"), ("send", LBL_A6, "extsmall"),
-             ("reset",), ("disable",), ("enable",), ("max", 1), ("max", 2), ("max", 0), ("max", 255)]
+             ("reset",), ("disable",), ("enable",), ("max", 1), ("max", 2), ("max", 0), ("max", 255), ("setcrc",),
+             ("fragstart", LBL_A6), ("fragstart", LBL_B3), ("fragstart", LBL_BC), ("cont",), ("cont",)]
     depth = 3
     seqs = list(itertools.product(alpha, repeat=depth)) if tier != "quick" else []
     nrand = 1500 if tier == "quick" else 25000
     for _ in range(nrand):
         seqs.append(tuple(rng.choice(alpha) for _ in range(rng.randrange(3, 14))))
+    # policy switches around traffic: X, cfg, Y, cfg, Z, Z for every configuration pair
+    cfgs = [None, ("reset",), ("disable",), ("enable",), ("max", 1), ("max", 3), ("setcrc",)]
+    fam = [(x, c1, y, c2, z) for x in (LBL_A6, LBL_B6) for c1 in cfgs for y in (LBL_A6, LBL_B6, LBL_A3) for c2 in cfgs for z in (LBL_A6, LBL_B6)]
+    if tier == "quick":
+        fam = rng.sample(fam, 250)
+    for x, c1, y, c2, z in fam:
+        seq = [("send", x, "ok")] + ([c1] if c1 else []) + [("send", y, "ok")] + ([c2] if c2 else []) + [("send", z, "ok"), ("send", z, "ok")]
+        seqs.append(tuple(seq))
     # long runs against the counter
     for mx in (1, 2, 3, 254, 255):
         seqs.append((("max", mx),) + (("send", LBL_A6, "ok"),) * (mx + 3 if mx < 10 else 260))
@@ -237,8 +246,24 @@ def suite_reuse(rng, tier):
             s.strict = False
         for _ in range(1 if starve else 4):
             s.prov(40, 0)
+        open_trains = []
         for a in seq:
-            if a[0] == "send":
+            if a[0] == "setcrc":
+                s.enc("set_crc")
+            elif a[0] == "fragstart":
+                # a train that stays open while other packets are sent (interleaved traffic with re-use on)
+                tp = bs_gen(n + 11 + len(open_trains), 30)
+                i = s.encap(tp, 20 + len(open_trains), 0x0800, a[1], bs_zero(18))
+                s.decap_if("p:%d" % s.ops[i]["reg"], of=i)
+                open_trains.append((tp, s.ops[i]["reg"]))
+                if not starve or rng.random() < 0.45:
+                    s.prov(40, 0)
+            elif a[0] == "cont":
+                if open_trains:
+                    tp, chain = open_trains.pop(0)
+                    j = s.encap_frag(tp, chain, bs_zero(64), cout=chain)
+                    s.decap_if("p:%d" % s.ops[j]["reg"], of=j)
+            elif a[0] == "send":
                 _, lab, how = a
                 pdu = bs_gen(n + 3, 20)
                 pt = 0x0800
@@ -305,13 +330,18 @@ def _prepare_state(s, rng, which):
         s.decap("h:a00a01001008006162636465")
         for _ in range(3):
             s.prov(8, 0)
+    elif which == "manyslots":
+        s.dec_new(rng.choice([255, 256, 257, 300]), 16, None)
+        s.prov(16, 0)
+        s.prov(16, 0)
+        s.decap("h:a00a%02x001008006162636465" % rng.choice([0, 254, 255]))
     elif which == "huge":
         s.dec_new(1, 70000, None)
         s.prov(70000, 0)
         s.decap("h:a00601ffff0800aa")
 
 
-STATES = ["fresh", "nostorage", "zeroslots", "tiny", "open", "full"]
+STATES = ["fresh", "nostorage", "zeroslots", "tiny", "open", "full", "manyslots"]
 TAILS = [b"", bytes(40), b"\xff" * 40, bytes.fromhex("03020000" * 10), bytes.fromhex("0042aabbcc0081" + "00" * 33),
          bytes.fromhex("01" + "ffff" + "0800" + "00" * 35), bytes.fromhex("0101" * 20)]
 
@@ -436,6 +466,24 @@ def suite_states(rng, tier):
             egl = 1 + need + 4
             s.decap("h:%04x01%s%08x" % (0x7000 | egl, last.hex(), crc))
             out.append(s)
+    # hand-built trains whose first fragment uses label re-use: conforming (total length and CRC without the
+    # label) must be delivered, non-conforming (total length / CRC counting the resolved label) must not
+    for lab in (LBL_A6, LBL_A3):
+        for conforming in (True, False):
+            for crc_with_label in (False, True):
+                s = Session("st-reuse-train-%s-%d-%d" % (lab.kind, conforming, crc_with_label))
+                s.strict = False
+                s.dec_new(2, 32, None)
+                s.prov(32, 0)
+                s.prov(32, 0)
+                ll = lab.wire_len()
+                s.decap("h:%02x%02x0800%s%s" % (0xc0 | (0x10 if ll == 3 else 0x00), 2 + ll + 2, lab.data.hex(), "beef"))
+                pdu = gen_bytes(4242 + ll, 12)
+                tl = 12 + 2 + (0 if conforming else ll)
+                crc = ref_gse_crc(pdu, 0x0800, tl, lab.data if crc_with_label else b"")
+                s.decap("h:b00a01%04x0800%s" % (tl, pdu[:5].hex()))
+                s.decap("h:700c01%s%08x" % (pdu[5:].hex(), crc))
+                out.append(s)
     # every give-back site of decap with the free list refilled to capacity while a reassembly holds a
     # storage: the storage must come back inside the error value, never vanish
     triggers = {
@@ -443,6 +491,8 @@ def suite_states(rng, tier):
         "end-oversize": "h:700a01" + "1122334455" + "00000000",
         "end-totallen": "h:700701" + "dddd" + "00000000",
         "end-badcrc": "h:700801" + "ddeeff" + "00000000",
+        "first-ok-same-id": "h:a0080100080800" + "a1a2a3",
+        "first-ok-alias-id": "h:a008%02x00080800" + "a1a2a3",
         "first-oversize-same-id": "h:a00c0100100800" + "01020304050607",
         "first-oversize-alias-id": "h:a00c%02x00100800" + "01020304050607",
         "inter-ok-then-end-badcrc": None,
@@ -461,7 +511,7 @@ def suite_states(rng, tier):
                 if name == "inter-ok-then-end-badcrc":
                     s.decap("h:300301" + "dd")
                     s.decap("h:700701" + "eeff" + "00000000")
-                elif name == "first-oversize-alias-id":
+                elif name in ("first-oversize-alias-id", "first-ok-alias-id"):
                     s.decap(trig % (1 + slots))
                 else:
                     s.decap(trig)
@@ -749,7 +799,8 @@ def suite_frames(rng, tier):
             out.append(s)
     # rejected packets in the middle of a frame: every per-packet rejection consumes its own length only
     for n in range(80 if tier == "quick" else 1500):
-        kind = rng.choice(["unknown-mand", "unknown-mand-ext", "unknown-mand-first", "badcrc", "unknown-fid", "nostorage", "noreuse"])
+        kind = rng.choice(["unknown-mand", "unknown-mand-ext", "unknown-mand-first", "badcrc", "unknown-fid", "nostorage", "noreuse",
+                           "ext-first-nearly-whole", "ext-first-nearly-whole"])
         for mode in ("single", "walk"):
             s = Session("reject%d-%s" % (n, mode))
             s.strict = False
@@ -771,6 +822,18 @@ def suite_frames(rng, tier):
             elif kind == "unknown-mand-first":
                 j = s.encap(bs_gen(n + 1, 30), 1, 0x0800, LBL_A3, bs_zero(24), exts=[(0x0055, b"\x01\x02")])
                 regs.append(s.ops[j]["reg"])
+            elif kind == "ext-first-nearly-whole":
+                # a legitimate first fragment with extension headers that carries all but a few PDU bytes
+                rr = random.Random(n)
+                lab = rr.choice([LBL_BC, LBL_A3, LBL_A6])
+                ch = rr.choice([[(0x0501, bytes(8))], [(0x0501, bytes(8)), (0x0401, bytes(6))], [(0x0301, bytes(4))]])
+                extlen = sum(2 + len(d) for _, d in ch)
+                pl = rr.choice([20, 30])
+                short = rr.choice([1, 2, 3])
+                j = s.encap(bs_gen(n + 4, pl), 2, 0x0800, lab, bs_zero(4 + lab.wire_len() + extlen + pl - short), exts=ch)
+                regs.append(s.ops[j]["reg"])
+                k2 = s.encap_frag(bs_gen(n + 4, pl), s.ops[j]["reg"], bs_zero(64), cout=s.ops[j]["reg"])
+                regs.append(s.ops[k2]["reg"])
             elif kind == "badcrc":
                 idx = _train(s, random.Random(n), bs_gen(n + 2, 20), 2, 0x0800, LBL_BC, 12, [64])
                 regs += [s.ops[k]["reg"] for k in idx]
@@ -848,13 +911,16 @@ def suite_recover(rng, tier):
                 s.decap("h:c00a0800000000000000aabb")   # zero label
             else:
                 s.prov(rng.choice([maxpdu, maxpdu, 3]), 0)
+        if rng.random() < 0.35:      # the caller tops the pool up until provisioning reports it is full
+            for _ in range(slots + 3):
+                s.prov(maxpdu, 0)
         # recovery protocol of the property: reset the label memory, make one storage available
         s.dec_reset()
         s.add("prov %d %d" % (maxpdu, 0), op="prov", len=maxpdu, fill=0, recovery=True)
         kind = rng.choice(["complete", "frag"])
         pdu = bs_gen(n + 1, rng.randrange(1, maxpdu + 1))
         lab = rng.choice([LBL_A6, LBL_A3, LBL_BC])
-        fid = rng.randrange(0, 256)
+        fid = rng.randrange(0, 256) if rng.random() < 0.5 else rng.randrange(0, 8)   # often the id of an abandoned train
         s.expect = []
         s.expect_frag = []
         if kind == "complete":
@@ -895,7 +961,7 @@ def suite_extlattice(rng, tier):
     for ch in chains:
         extlen = sum(2 + len(d) for _, d in ch)
         last = ch[-1][0]
-        for pt in sorted(set([0x0800, 0x0600, 0x05FF, 0x0100, 0x00FF, last if last < 0x100 else 0x0081])):
+        for pt in sorted(set([0x0800, 0x0600, 0x05FF, 0x0100, 0x00FF, last, ch[0][0], last if last < 0x100 else 0x0081])):
             for lab in (LBL_A6, LBL_BC):
                 for pl in (0, 1, 2, 30):
                     base = 4 + lab.wire_len() + extlen + pl
@@ -1029,12 +1095,13 @@ def suite_utils(rng, tier):
                 s.ops[i]["utils_twin"] = a
         elif kind == "I":
             gl = 1 + pl
-            if pl == 0 or gl > 4095:
+            if gl > 4095:
                 continue
             a = both("I", "%d %d %s" % (gl, fid, pdu.expr), (gl, fid, pdu))
-            whole = BS(pdu.expr + "+g:%d:50" % (k + 78), pdu.val + gen_bytes(k + 78, 50))
-            i = s.encap_frag(whole, (fid, 0x11223344, 0), bs_zero(pl + 3))
-            s.ops[i]["utils_twin"] = a
+            if pl >= 1:      # the encapsulator never emits an empty intermediate fragment
+                whole = BS(pdu.expr + "+g:%d:50" % (k + 78), pdu.val + gen_bytes(k + 78, 50))
+                i = s.encap_frag(whole, (fid, 0x11223344, 0), bs_zero(pl + 3))
+                s.ops[i]["utils_twin"] = a
         else:
             gl = 5 + pl
             if gl > 4095:
